@@ -513,7 +513,20 @@ func TestC12_Confinement(t *testing.T) {
 			// drop one registered scope
 			if len(cl.Scopes) > 0 {
 				i := rapid.IntRange(0, len(cl.Scopes)-1).Draw(rt, "drop")
-				cl.Scopes = append(append([]string{}, cl.Scopes[:i]...), cl.Scopes[i+1:]...)
+				narrowed := append(append([]string{}, cl.Scopes[:i]...), cl.Scopes[i+1:]...)
+				if rapid.Bool().Draw(rt, "replaceRecord") {
+					// the administrator's update stores a NEW registration record; requests persisted earlier
+					// still point to the old object
+					dc := *cl.DefaultClient
+					dc.Scopes = narrowed
+					oc := *cl.DefaultOpenIDConnectClient
+					oc.DefaultClient = &dc
+					ncl := &h.HClient{DefaultOpenIDConnectClient: &oc}
+					w.Mem.Clients["c12"] = ncl
+					cl = ncl
+				} else {
+					cl.Scopes = narrowed
+				}
 			}
 			scopeCov = h.Yes
 			nCovered, nUncovered = 0, 0
